@@ -146,3 +146,29 @@ Theorem C05_error_kinds_inspected :
   ["benign_error.rs:ESTALE"; "benign_error.rs:NotFound"; "cache_dir.rs:InvalidInput"; "lib.rs:Other";
    "raw_cache.rs:AlreadyExists"; "stack.rs:NotFound"; "stack.rs:Unsupported"]%string.
 Proof. exact error_kinds_inspected. Qed.
+
+(** Losing the race to create a cache directory is not an error (all responses): create_dir_all
+    and ensure_directory answer "already exists" only when the last thing they did was to look at
+    the path (following stat) and find that it is NOT a directory; an EEXIST from mkdir - a
+    peer's first insertion created the directory in between - is always followed by that look.
+    (Proofs/MkdirRace.v) *)
+From Kismet Require Import Proofs.MkdirRace.
+Theorem C05_mkdir_race_is_not_an_error : forall p s,
+  wp md_step (create_dir_all p) (fun r s' => r = Err (OsErr EEXIST) -> s' = Some false) s.
+Proof. exact mkdir_race_is_not_an_error. Qed.
+
+Theorem C05_ensure_directory_race_is_not_an_error : forall p s,
+  wp md_step (ensure_directory p) (fun r s' => r = Err (OsErr EEXIST) -> s' = Some false) s.
+Proof. exact ensure_directory_race_is_not_an_error. Qed.
+
+Theorem C05_mkdir_race_on_every_run : forall p w o,
+  let '(r, _, _, tr) := run (create_dir_all p) w o in
+  r = Err (OsErr EEXIST) -> mon_run md_step None tr = Some (Some false).
+Proof. exact mkdir_race_run. Qed.
+
+Theorem C05_mkdir_monitor_meaning : forall p s st,
+  md_step s (EvCall (CStat p true) (RStat st)) = Some (Some (st_dir st)) /\
+  md_step s (EvCall (CStat p true) (RErr ENOENT)) = Some (Some false) /\
+  md_step s (EvCall (CMkdir p) (RErr EEXIST)) = Some None /\
+  md_step s (EvCall (CStat p false) (RStat st)) = Some s.
+Proof. exact md_monitor_meaning. Qed.
